@@ -9,15 +9,8 @@ fn any_prefix<'a>(buf: &'a [u8]) -> &'a [u8] {
     &buf[..n]
 }
 
-// @harness name=total_sticky_v1 kind=bounded tiers=thorough domain="all byte strings of length 0..=12 whose scope tag is 0 or 2 (ID scopes; tag 1 allocates a string)" bound="input length <= 12 bytes" target="StickyIndex::decode_v1 (IndexScope::decode, Assoc::decode, ClientID::new)" timeout=900
-#[kani::proof]
-#[kani::unwind(24)]
-fn total_sticky_v1() {
-    let buf: [u8; 12] = kani::any();
-    let input = any_prefix(&buf);
-    kani::assume(input.len() == 0 || input[0] != 1);
-    let _ = StickyIndex::decode_v1(input).map(|_| ());
-}
+// (retired: the bounded harness total_sticky_v1 - StickyIndex::decode_v1 on inputs <= 12 bytes - was a stand-in until unit
+// sticky proved IndexScope / StickyIndex / Assoc decoding total for ALL inputs; DESIGN.md 9.2)
 
 // @harness name=total_assoc_v1 kind=complete tiers=quick,thorough domain="all byte strings (reads <= 11 bytes; lengths 0..=12)" bound="unwind 24, unwinding assertions on" target="Assoc::decode"
 #[kani::proof]
